@@ -254,6 +254,35 @@ fn main() {
                 }
             }
         }
+        Some("dbg-structure") => {
+            // print the module-level structure of a wasm file and of gc+emit of it
+            let path = args.get(2).cloned().unwrap_or_else(|| usage());
+            let bytes = std::fs::read(path).unwrap();
+            let mut m = wal::Cfg::plain().to_config().parse(&bytes).unwrap();
+            walrus::passes::gc::run(&mut m);
+            let out = m.emit_wasm();
+            {
+                let (da, db) = (walrus_verif::decode::decode(&bytes).unwrap(), walrus_verif::decode::decode(&out).unwrap());
+                let mut iso = walrus_verif::iso::Iso::new(&da, &db);
+                let r = iso.run_gc();
+                println!("iso gc: {:?}\n funcs {:?}\n globals {:?}", r.map_err(|e| e.signature), iso.funcs.fwd, iso.globals.fwd);
+            }
+            for (n, b) in [("in", &bytes), ("gc-out", &out)] {
+                let d = walrus_verif::decode::decode(b).unwrap();
+                println!("== {}", n);
+                println!("imports {:?}", d.imports);
+                println!("globals {:?}", d.globals);
+                println!("exports {:?}", d.exports);
+                println!("elems {:?}", d.elems.iter().map(|e| format!("{:?}", e)).collect::<Vec<_>>());
+                for (i, f) in d.funcs.iter().enumerate() {
+                    let g: Vec<String> = f.ops.iter().filter(|o| o.name.starts_with("Global")).map(|o| o.short()).collect();
+                    println!("func {} globals used {:?}", i, g);
+                    if f.ops.len() < 40 {
+                        println!("   {:?}", f.ops.iter().map(|o| o.short()).collect::<Vec<_>>());
+                    }
+                }
+            }
+        }
         Some("dump") => {
             // write the wasm a replay file denotes to stdout path
             let path = args.get(2).cloned().unwrap_or_else(|| usage());
